@@ -883,8 +883,8 @@ func main() {
 		return
 	}
 	r := hx.New("C14")
-	r.Rule = "E1: every execution = one complete schedule of the file-system steps of 2-3 threads running the real FileCache.Set/Get code (plus crash choices at every writer step and two-step torn writes), enumerated by stateless DFS with preemption bound (quick: 2) or without bound with exact global-state pruning (thorough); E4: one real process per (syscall, k) killed on entry to the k-th invocation. Non-trivial = executions in which two operations on the same URL, at least one a Set, overlapped in time."
-	r.Assumptions = []string{"rename(2), unlink(2) and open-inode semantics are the kernel's (used, not verified)", "power-loss semantics (unsynced data) are outside the property: a killed process leaves the page cache intact", "steps between two file-system operations of one thread are atomic (no shared memory between FileCache users besides the directory)", "at most 3 concurrent participants + 1 post-mortem reader"}
+	r.Rule = "E1: every execution = one complete schedule of the file-system steps of 2-3 threads running the real FileCache.Set/Get code (plus crash choices at every writer step, two-step torn writes and - in the fault scenarios - one environment fault: ENOSPC half-way through a write or on create, EIO on close/fsync, EXDEV on rename), enumerated by stateless DFS with preemption bound (quick: 2) or without bound with exact global-state pruning (thorough); E4: one real process per (syscall, k) killed on entry to the k-th invocation. Non-trivial = executions in which two operations on the same URL, at least one a Set, overlapped in time."
+	r.Assumptions = []string{"rename(2), unlink(2) and open-inode semantics are the kernel's (used, not verified)", "power-loss semantics (unsynced data) are outside the property: a killed process leaves the page cache intact", "steps between two file-system operations of one thread are atomic (no shared memory between FileCache users besides the directory) - validated separately by the free-running -race pass E5 (extra.e5_free_running), which is a sample and never counts towards exhaustive", "at most 3 concurrent participants + 1 post-mortem reader"}
 	scratch := hx.Scratch()
 	bundleDir := filepath.Join(scratch, "bundles")
 	writeBundles(bundleDir)
